@@ -79,6 +79,25 @@ impl Expr {
         }
     }
 
+    /// The expression without the outer parentheses of a `value-expr`: what one types after
+    /// `okane primitive eval`, which supplies the outer pair itself.
+    pub fn render_bare(&self) -> String {
+        self.render_add()
+    }
+
+    /// As `render_bare`, with a redundant pair of parentheses around every operand:
+    /// `(4 USD) - ((3 USD) * (2))`. The same tree, the same value.
+    pub fn render_loose(&self) -> String {
+        fn atom(e: &Expr) -> String {
+            format!("({})", e.render_loose())
+        }
+        match self {
+            Expr::Lit { .. } => self.render_lit(),
+            Expr::Neg(e) => format!("-{}", atom(e)),
+            Expr::Bin(op, l, r) => format!("{} {} {}", atom(l), op, atom(r)),
+        }
+    }
+
     fn render_lit(&self) -> String {
         match self {
             Expr::Lit { num, com } => {
